@@ -47,12 +47,7 @@ D3 = "`X default e` with a declared global X inside a function literal (a macro 
      "uses the index of the Global as an index into the literal's own variables"
 # D1 and D2 (found by this check) were fixed in /repo (known-findings.json, kind "fixed").  D3 is demonstrated on the
 # unchanged tree: `{% macro M %}[{{ X default 7 }}]{% end %}{{ M() }}` (proposed fix in the family report).
-PROPOSED_KNOWN = [
-    {"kind": "known", "signature": {"fam": "globals", "clause": "run-failed", "got": "hostpanic-run", "op": "d", "lit": True},
-     "what": D3 + " - Run panics with index out of range"},
-    {"kind": "known", "signature": {"fam": "globals", "clause": "read", "got": "other-variable", "op": "d", "lit": True},
-     "what": D3 + " - the default expression shows the value of another global"},
-]
+PROPOSED_KNOWN = []   # every defect found by this check was fixed in /repo (known-findings.json, kind "fixed")
 
 CORE = ["FixedMeetsRef", "UsedVarsReportedFixed"]
 THEOREMS = ["FixedMeetsRef", "AsWrittenDeviatesOnlyIf", "PkgFixLeavesOnlyCross", "DedupFixLeavesOnlyLitFirst",
